@@ -45,7 +45,15 @@ fn apply(l: &mut Locale, op: &str) -> String {
     let a0 = || a.first().cloned().unwrap_or_default();
     let rest = || a.iter().skip(1).cloned().collect::<Vec<_>>();
     match kind {
-        "set_language" => match Language::from_bytes(&a0()) {
+        "set_language" => match {
+            use std::convert::TryFrom;
+            let a = a0();
+            match (a.len() % 3, std::str::from_utf8(&a)) {
+                (0, _) => Language::try_from(Some(a.as_slice())),
+                (1, Ok(t)) => t.parse::<Language>(),
+                _ => Language::from_bytes(&a),
+            }
+        } {
             Ok(x) => {
                 l.id.language = x;
                 "ok".into()
